@@ -138,6 +138,8 @@ class Report:
     def floor_errors(self) -> List[str]:
         errs = []
         for r in self.rules.values():
+            if r.refuted:
+                continue        # a refuted rule reports its finding; one combined finding may stand for several instances
             if r.instances < r.min_instances:
                 errs.append(f'rule {r.name} matched {r.instances} instance(s), below the floor {r.min_instances} '
                             f'confirmed by hand: the rule has gone blind')
